@@ -95,6 +95,17 @@ def gen_cases(tier, seed):
             upd = "flaky:%d" % r2.choice([0, 1, 2, 3, 5, 8, 13, 20, 40, 90])
         yield {"dupsrc": dupsrc, "mount": mount, "vanish": vanish, "onecpu": onecpu, "deref": deref, "spec": spec, "driver": driver, "updater": upd, "mode": mode, "bs": bs, "workers": 0 if onecpu or r.random() < 0.05 else r.choice([1, 2, 4, 8]), "policy": pol, "rules": rules,
                "plan": sch, "fs": "ext4"}
+    # a tree far deeper than it is wide (a file on every level): everything in it is announced and copied, however far down
+    for i in range(4 if tier == "quick" else 24):
+        depth = [140, 200, 129, 300][i % 4]
+        spec, cur = [{"p": "src", "k": "d"}], "src"
+        for lv in range(depth):
+            cur += "/d"
+            spec.append({"p": cur, "k": "d"})
+            if lv % 10 == 9 or lv == depth - 1:
+                spec.append({"p": cur + "/f", "k": "f", "size": 1000 + lv, "seed": 50 + lv, "segs": None})
+        yield {"dupsrc": False, "mount": None, "vanish": None, "onecpu": False, "deref": False, "spec": spec, "driver": ["parfile", "parblock"][i % 2], "updater": ["record", "channel"][(i // 2) % 2], "mode": "live",
+               "bs": 4096, "workers": 2, "policy": "deep-tree", "rules": [], "plan": {"sched": "free", "sched_seed": 1}, "fs": "ext4"}
     # a source whose length is reported as 0 although it has content (the kernel's own files): whatever is announced for it, no more
     # than that may be reported as copied
     for i, path in enumerate([p_ for p_ in ["/proc/crypto", "/proc/kallsyms", "/proc/version"] if os.path.exists(p_)]):
